@@ -84,7 +84,7 @@ func skipCompare(c *mc.Ctx, prop string, input []byte, t int8, sk string, env En
 		}
 	}
 	// a decoder that has just rejected something went back to its pool: the next user must find it as good as new
-	if !o.OK && sk != skBinary && sk != skBufBytes && sk != skBufStream {
+	if !o.OK && sk != skBinary && sk != skBufBytes && sk != skBufStream && sk != skTplCustom {
 		c2 := runSkipperOpt(sk, c08Canary, ref.STRUCT, env, false, false)
 		if c2.Panic != nil || c2.AllocCap || !c2.OK || c2.N != len(c08Canary)-1 || (c2.HasBytes && string(c2.Bytes) != string(c08Canary[:len(c08Canary)-1])) {
 			bad("state-leaks-after-rejection", "after this rejected input, a fresh decoder from the pool mishandled a well-formed struct: %s (want extent %d)", describeOut(c2), len(c08Canary)-1)
@@ -148,7 +148,7 @@ func c08Run(c *mc.Ctx) {
 	c.Count("grammar-strings-x-types-rejected-by-reference", rej)
 	c.Count("grammar-strings-x-types-accepted-by-reference", acc)
 	c.Sample("grammar-string", c08Case{InputHex: "0f0b000000020000", Type: ref.LIST, Skipper: skBinary, Desc: "list<string> size 2, truncated"})
-	c.Done(fmt.Sprintf("all strings over the 12-byte grammar alphabet up to length %d x 18 requested types x 7 skipper/reader combinations", L))
+	c.Done(fmt.Sprintf("all strings over the 12-byte grammar alphabet up to length %d x 18 requested types x 8 skipper/reader combinations", L))
 
 	// (b) strict prefixes, (c) structural perturbations of the generated trees
 	trees := gen.Trees(false, 12)
